@@ -95,7 +95,9 @@ def ostep (o : OSt) (op out : String) : OSt × String :=
         | some (_, "clear", k, _) =>
           if st == "ret:true" then
             let inProgress := o.ops.any fun x => x.2.1 == "assert" && x.2.2.1 == k && o.busy.contains x.1
-            { o with started := (if inProgress then [k] else []) ++ o.started.filter (· != k), completed := o.completed.filter (· != k) }
+            -- an Assert(k) that overlaps this Clear may be the one that was just cancelled: its return proves nothing
+            { o with started := (if inProgress then [k] else []) ++ o.started.filter (· != k), completed := o.completed.filter (· != k),
+                     ops := o.ops.map fun x => if x.2.2.1 == k && x.1 != t then (x.1, x.2.1, x.2.2.1, true) else x }
           else o
         | _ => o
       else o
